@@ -316,8 +316,10 @@ func c01Compare(want refmodel.Table, got []apiRoute) string {
 	key := func(f refmodel.FlatTarget) string {
 		return fmt.Sprintf("%s|%s|%s|%s|%s", f.Host, f.Path, f.Service, f.Dst, strings.Join(f.Tags, ","))
 	}
-	sort.SliceStable(w, func(i, j int) bool { return key(w[i]) < key(w[j]) })
-	sort.SliceStable(g, func(i, j int) bool { return key(g[i]) < key(g[j]) })
+	// targets that differ only in weight or options are ordered by those (rounded: the two sides may differ in the last bits)
+	key2 := func(f refmodel.FlatTarget) string { return fmt.Sprintf("%s|%.6f|%v", key(f), f.Weight, f.Opts) }
+	sort.SliceStable(w, func(i, j int) bool { return key2(w[i]) < key2(w[j]) })
+	sort.SliceStable(g, func(i, j int) bool { return key2(g[i]) < key2(g[j]) })
 	if len(w) != len(g) {
 		return fmt.Sprintf("table has %d targets, model expects %d\n table: %s\n model: %s", len(g), len(w), flatStr(g), flatStr(w))
 	}
